@@ -8,4 +8,54 @@ import Proofs.Lemmas.PipelineInvB
 import Proofs.Lemmas.PipelineInvC
 namespace Wpull.Pipeline
 
+/-! ## helper lemmas -/
+
+theorem invN_step {c : Cfg} (hfx : c.fx = Fix.all) {s s' : St} {a : Act} (h : InvN s)
+    (hs : step c s a = some s') : InvN s' := by
+  cases a with
+  | prod => exact invN_prod hfx h hs
+  | main => exact invN_main hfx h hs
+  | getw => exact invN_getw h hs
+  | task i ok => exact invN_task h hs
+  | stop => exact invN_stop hfx h hs
+  | setConc n => exact invN_setConc h hs
+
+theorem invN_reach {c : Cfg} (hfx : c.fx = Fix.all) {conc0 : Nat} {s : St} (hr : Reach c conc0 s) : InvN s := by
+  induction hr with
+  | init => exact invN_init conc0
+  | step a _ hs ih => exact invN_step hfx ih hs
+
+theorem countRun_zero {l : List Ph} (h : l.any isRun = false) : countRun l = 0 := by
+  induction l with
+  | nil => rfl
+  | cons a l ih => simp at h; simp [countRun, h.1, ih (by simpa using h.2)]
+
+/-- the pipeline is paused on purpose: running with concurrency 0 -/
+def paused (s : St) : Prop := s.pstate = .running ∧ s.conc = 0
+
+/-! ## Property theorems -/
+
+/-- **No hang.**  In every reachable state of the repaired pipeline in which no coroutine can make a
+step and no task / `get_item` call is outstanding (`quiescent`), `process()` has completed —
+unless the pipeline is paused on purpose (running with concurrency 0, where it waits to be
+unpaused).  This is the "always finishes" half of C13 for all item counts, task counts,
+concurrency values, schedules, stops, concurrency changes and failures. -/
+theorem no_hang {c : Cfg} (hfx : c.fx = Fix.all) {conc0 : Nat} {s : St} (hr : Reach c conc0 s)
+    (hq : quiescent s = true) (hp : ¬ paused s) : mainDone s = true := by
+  have h := invN_reach hfx hr
+  obtain_inv h
+  simp only [quiescent, Bool.and_eq_true, Bool.not_eq_true', beq_iff_eq] at hq
+  obtain ⟨⟨⟨hq1, hq2⟩, hq3⟩, hq4⟩ := hq
+  have hb := countRun_zero hq4
+  simp only [paused] at hp
+  destruct_st s
+  simp only [St.qi, St.qsize, St.live, St.wt] at *
+  rcases main with _ | w | w | w | w | _ | _ | _
+  all_goals (try rcases w with _ | _)
+  all_goals (try simp [mainReady, mainDone] at hq2 ⊢)
+  all_goals (rcases prod with _ | _ | _ | b | b | _ | _ | _ | _)
+  all_goals (try rcases b with _ | _)
+  all_goals (try simp [prodReady] at hq1)
+  all_goals grind
+
 end Wpull.Pipeline
